@@ -147,7 +147,11 @@ pub struct InodeData {
     // Most of these aren't actually files but ¯\_(ツ)_/¯.
     handle: InodeHandle,
     id: InodeId,
+    #[cfg(not(fuse_backend_rs_verif))]
     refcount: AtomicU64,
+    // Verification hook H1: the same counter with a scheduler yield point before every operation.
+    #[cfg(fuse_backend_rs_verif)]
+    refcount: verif_sched::YieldAtomicU64,
     // File type and mode
     mode: u32,
 }
@@ -158,7 +162,10 @@ impl InodeData {
             inode,
             handle: f,
             id,
+            #[cfg(not(fuse_backend_rs_verif))]
             refcount: AtomicU64::new(refcount),
+            #[cfg(fuse_backend_rs_verif)]
+            refcount: verif_sched::YieldAtomicU64::new(refcount),
             mode,
         }
     }
